@@ -440,7 +440,10 @@ type numCase struct {
 
 func checkNumToStr(c *vh.Ctx) {
 	fs := interestingFloats(c, c.N(2000, 40000))
-	formats := []string{"%.6g", "%.2f", "%.10g", "%.3e", "%5.1f", "%.17g", "%d"}
+	formats := []string{"%.6g", "%.2f", "%.10g", "%.3e", "%5.1f", "%.17g", "%d",
+		// conversions WITHOUT a precision, with every flag and a width: C's default precision (6) applies whatever stands between
+		// the % and the verb (seeded C05-r2: the default was not added after a space flag)
+		"%g", "% g", "%+g", "%-g", "%#g", "%0g", "% 10g", "%- g", "%-12g", "%+012g", "%G", "% G", "%12G", "%e", "% e", "%-14E", "%f", "% f", "%+9f"}
 	var reqs []string
 	for _, f := range fs {
 		integral := !math.IsNaN(f) && !math.IsInf(f, 0) && f == math.Trunc(f) && f >= -9223372036854775808 && f < 9223372036854775808
@@ -453,7 +456,7 @@ func checkNumToStr(c *vh.Ctx) {
 			if format == "%d" && !integral {
 				continue // %d of a non-integer is C09's business (Go's Sprintf("%d", float) is not C's)
 			}
-			want := refNumToStr(f, format)
+			want := refNumToStr(f, cFormatFlags(format))
 			if got != want {
 				c.Fail(vh.Failure{Kind: "oracle", What: "number → string: integral values in the int64 range print as exact integers, others through the format", Case: cs, Got: got, Want: want})
 			}
@@ -1155,4 +1158,17 @@ func run(c *vh.Ctx) {
 		"visible only through printf(\"%g\", -x) / 1/x; occurrences in this run are counted under note:prefix-sign-of-zero-differs-from-reference")
 	c.Note("out-of-range literals (\"1e999\") are not numeric-looking (parseFloat reports ErrRange; same rule as onetrue-awk's ERANGE test); " +
 		"the reference grammar follows that reading")
+}
+
+// cFormatFlags: a single floating conversion as C reads it — when it has no precision the precision is 6, for e E f F g G alike
+// and whatever flags and width stand before the verb. (Go's fmt agrees for e and f; its %g without precision is the shortest form.)
+func cFormatFlags(f string) string {
+	if len(f) < 2 || f[0] != '%' || strings.Contains(f, ".") {
+		return f
+	}
+	switch f[len(f)-1] {
+	case 'g', 'G', 'e', 'E', 'f', 'F':
+		return f[:len(f)-1] + ".6" + f[len(f)-1:]
+	}
+	return f
 }
